@@ -25,6 +25,8 @@ PLAN = {
     "C10b": ["C10"], "C06b": ["C06"], "C08b": ["C08"], "C03b": ["C03", "C04"],
     "C01c": ["C01", "C08", "C03"], "C03c": ["C03", "C17", "C01"], "C05c": ["C05", "C14"], "C06c": ["C06", "C04", "C09"],
     "C13c": ["C13", "C12"], "C12": ["C12"],
+    "C01e": ["C01", "C05", "C14"], "C03e": ["C03", "C08"], "C05e": ["C05", "C15"], "C06e": ["C06", "C04"], "C09e": ["C09", "C02"],
+    "C13e": ["C13"], "C19e": ["C19", "C16"], "C07e": ["C07", "C10"],
     "C14d": ["C14", "C05"], "C08d": ["C08", "C03"], "C20d": ["C20", "C09"], "C16d": ["C16"],
 }
 
